@@ -1339,3 +1339,41 @@ Definition scen_ttl_expire_threads : list kind := [KRefresh; (KFinalize 0%N); KM
 Definition scen_scan_restore_receive_state : state :=
   (mkState [] [mkEntry 0%N (Some 0%N) TRecvCancelled false 5000000000%N 0%N None None 0%N 1%N (Some 1%N) (Some 7%N) None false] 1%N 1%N [] 7%N 7%N 2%N (mkNode 8%N [(0%N, 8%N, 5000000000%N, false)] [(1%N, 8%N)] false []) [mkSlot true true true true false 5000000000%N 23000000%N 0%N (mkTxd 1%N [] []); mkSlot true false false false false 3000000000%N 23000000%N 0%N (mkTxd 2%N [] [])]).
 Definition scen_scan_restore_receive_threads : list kind := [(KScan true); (KReceive 1%N); KMine].
+
+Definition start (s : state) (ks : list kind) : config := (map init_local ks, s).
+
+Definition c_recv_cancel := start scen_recv_cancel_state scen_recv_cancel_threads.
+Definition c_send_nochange_cancel :=
+  start scen_send_nochange_cancel_state scen_send_nochange_cancel_threads.
+Definition c_restore_two_refresh :=
+  start scen_restore_two_refresh_state scen_restore_two_refresh_threads.
+
+(** the scenario instances of the bounded theorem, each with its preemption bound (1000 =
+    every interleaving: the other threads of those scenarios are single sections) *)
+Definition bounded_scenarios : list (config * N) :=
+  [(start scen_send_nochange_finalize_state scen_send_nochange_finalize_threads, 1000);
+   (start scen_recv_cpfin_state scen_recv_cpfin_threads, 1000);
+   (start scen_ttl_expire_state scen_ttl_expire_threads, 1000);
+   (start scen_scan_restore_receive_state scen_scan_restore_receive_threads, 1000);
+   (c_recv_cancel, 2);
+   (c_send_nochange_cancel, 2);
+   (c_restore_two_refresh, 1)].
+
+(** witness schedules (thread ids: 0 refresh, 1 cancel_tx / retrieve_txs, 2 environment) *)
+(* refresh U1..U4 (snapshot) | cancel_tx complete | counterparty finalizes, block | refresh U6 (kernel found) U7 (write-back) .. *)
+Definition w_stale : list N :=
+  [0; 0; 0; 0; 1; 1; 1; 1; 1; 1; 1; 1; 1; 1; 1; 2; 0; 0; 0; 0; 0; 0; 0; 0].
+Definition w_K1 : list N :=
+  [0; 0; 0; 0; 0; 0; 0; 1; 1; 2; 1; 0; 0; 0; 0; 0; 1; 1; 1; 1; 1; 1; 1; 1].
+Definition w_K2 : list N :=
+  [1; 1; 1; 1; 1; 0; 0; 2; 0; 0; 0; 1; 1; 1; 1; 1; 1; 0; 0; 0; 0; 0; 0].
+Definition w_K3 : list N :=
+  [0; 0; 0; 0; 0; 0; 0; 0; 1; 1; 1; 1; 1; 1; 1; 1; 1; 1; 1; 1; 0; 0; 0; 2].
+
+(** [sched] ends in an observation no serial execution reaches (decidable form) *)
+Definition not_serializable (m : wbmode) (c0 : config) (sched : list N) : bool :=
+  forallb (fun x => negb (obs_eqb (obs (run m sched c0)) (obs (snd x)))) (finals m 0 c0).
+Definition is_final (m : wbmode) (b : N) (c0 : config) (sched : list N) : bool :=
+  existsb (fun x => (length (fst x) =? length sched)%nat
+                    && forallb (fun ab => fst ab =? snd ab) (combine (fst x) sched))
+          (finals m b c0).
